@@ -42,7 +42,7 @@ pub fn exec(t: &[&str]) -> Option<String> {
     match t {
         ["c12_from_bytes", h] => Some(show(Address::from_bytes(&unhex(h)))),
         ["c12_from_str", h] => Some(match String::from_utf8(unhex(h)) { Ok(s) => show(Address::from_str(&s)), Err(_) => "err".into() }),
-        ["c12_from_hex", h] => Some(match String::from_utf8(unhex(h)) { Ok(s) => show(Address::from_hex(s)), Err(_) => "err".into() }),
+        ["c12_from_hex", h] => Some(show(Address::from_hex(unhex(h)))),   // `T: AsRef<[u8]>`: any bytes reach the library
         ["c12_fmt", n, k, s, v, p] => Some(match mk(n, k, s, v, p)? {
             None => "err".into(),
             Some(a) => format!("{} {}", hex(&a.as_bytes()), hex(a.to_string().as_bytes())),
@@ -276,6 +276,7 @@ pub fn run(o: &mut Out, tier: &str, seed: u64) {
         g.hexform("base58_text_as_hex", a.to_string().as_bytes());
     }
     g.hexform("empty", b""); g.hexform("only_0x", b"0x"); g.hexform("non_ascii", "0xé".as_bytes());
+    g.hexform("invalid_utf8", &[b'0', b'x', 0xff, 0xfe]); g.hexform("invalid_utf8", &[0x80, 0x80]);
 
     // consensus form
     for i in 0..(if thorough { 30 } else { 9 }) {
